@@ -2,7 +2,7 @@ SPECIFICATION Spec
 CONSTANTS
   Algs = {"argon2i", "argon2id"}
   TCosts = {1, 2, 3}
-  MCosts = {8, 64, 1024}
+  MCosts = {8, 64, 600, 1024}
   SaltLens = {8, 15, 16, 17, 64}
   HashLens = {16, 31, 32, 33, 128}
 CHECK_DEADLOCK FALSE
